@@ -12,7 +12,7 @@ REQUIRED_MONITORS = ["labels@SC_apply(function)", "labels@SC_apply(inside SSIcov
                      "labels@SC_apply(inside SSIcov_MS.run)", "labels@SC_apply(inside pLSCF_MS.run)", "purity@SC_apply", "result.Lab==labels of final tables"]
 ALL_STATES = ["stable", "fails fn only", "fails xi only", "fails MAC only", "fails several", "prev column empty", "NaN pole", "below ordmin", "first column",
               "above ordmax", "nearest neighbour is not the same row"]
-REQUIRED_STATES = ["stable", "fails fn only", "fails xi only", "fails MAC only", "prev column empty", "NaN pole", "below ordmin", "first column",
+REQUIRED_STATES = ["run with covariance criterion", "stable", "fails fn only", "fails xi only", "fails MAC only", "prev column empty", "NaN pole", "below ordmin", "first column",
                    "nearest neighbour is not the same row"]
 RULE = ("pole tables up to 40 orders x 12 rows with random / structured NaN patterns, per-column row shuffles, duplicates and close frequencies, "
         "complex shapes and perturbations straddling each tolerance; every cell's label compared with an independent model (nearest finite "
@@ -188,6 +188,7 @@ def run_inside(ctx, rng):
     ordmin_s = int(rng.choice([0, 0, 3, 6]))
     ordmin_p = int(rng.choice([0, 0, 1, 2, 3]))
     specs = [("SSIcov", SSIcov, dict(br=8, ordmax=18, ordmin=ordmin_s, sc=sc)), ("SSIdat", SSIdat, dict(br=8, ordmax=18, ordmin=ordmin_s, sc=sc)),
+             ("SSIcov", SSIcov, dict(br=6, ordmax=10, ordmin=0, sc=sc, calc_unc=True, nb=10, hc=dict(conj=True, xi_max=0.1, mpc_lim=0.5, mpd_lim=0.5, cov_max=float(rng.choice([2e-4, 1e-3, 5e-3]))))),
              ("pLSCF", pLSCF, dict(ordmax=8, ordmin=ordmin_p, nxseg=256, sc=sc))]
     with probes.patched(G_, "SC_apply", spy):
         for name, cls, kw in specs:
@@ -221,6 +222,14 @@ def finish_run(ctx, name, alg, rec, plscf_ordmin):
     ok = (np.array_equal(r.Lab, out) and np.array_equal(r.Fn_poles, args[0], equal_nan=True) and np.array_equal(r.Xi_poles, args[1], equal_nan=True)
           and np.array_equal(r.Phi_poles, args[2], equal_nan=True))
     ctx.check(ok, "run:labels_not_of_final_tables", f"{name}: result.Lab / result pole tables are not the ones the labels were computed from")
+    # and independently of how run() is organised: the stored labels must be what the model computes from the stored (final) tables
+    rp = alg.run_params
+    is_p = plscf_ordmin is not None
+    final_args = (np.asarray(r.Fn_poles), np.asarray(r.Xi_poles), np.asarray(r.Phi_poles), rp.ordmin, (rp.ordmax - 1) if is_p else rp.ordmax, 1,
+                  rp.sc["err_fn"], rp.sc["err_xi"], rp.sc["err_phi"])
+    judge(ctx, f"labels@SC_apply(inside {name}.run)", final_args, np.asarray(r.Lab), skip)
+    if getattr(rp, "calc_unc", False):
+        ctx.state("run with covariance criterion")
 
 
 def run_case(ctx, case):
